@@ -179,7 +179,7 @@ func Main(args []string) int {
 		sort.Slice(l, func(i, j int) bool { return l[i].Name < l[j].Name })
 		_ = WriteJSON("-", l)
 		return 0
-	case "run", "replay":
+	case "run", "replay", "tracediff":
 		h := registry[*hname]
 		if h == nil {
 			fmt.Fprintln(os.Stderr, "unknown harness", *hname)
@@ -201,6 +201,45 @@ func Main(args []string) int {
 		}
 		if *nocache {
 			v.NoCache = true
+		}
+		if args[0] == "tracediff" {
+			var cs []int
+			for _, s := range strings.Split(*choices, ",") {
+				if s != "" {
+					n, _ := strconv.Atoi(s)
+					cs = append(cs, n)
+				}
+			}
+			var first *Exec
+			for i := 0; i < *nrep; i++ {
+				x := RunOnce(h.Sched(*v), RunOptions{Prefix: cs, Bound: 1 << 20, Trace: true})
+				fmt.Printf("run %d: choices=%d steps=%d trace=%d diverged=%q\n", i, len(x.Choices), x.Steps, len(x.Trace), x.Diverged)
+				if first == nil {
+					first = x
+					continue
+				}
+				for j := 0; j < len(first.Trace) || j < len(x.Trace); j++ {
+					a, b := "<end>", "<end>"
+					if j < len(first.Trace) {
+						a = first.Trace[j]
+					}
+					if j < len(x.Trace) {
+						b = x.Trace[j]
+					}
+					if a != b {
+						lo := j - 6
+						if lo < 0 {
+							lo = 0
+						}
+						for k := lo; k < j; k++ {
+							fmt.Printf("   same[%d] %s\n", k, first.Trace[k])
+						}
+						fmt.Printf("  first[%d] %s\n  run%d[%d] %s\n", j, a, i, j, b)
+						break
+					}
+				}
+			}
+			return 0
 		}
 		if args[0] == "replay" {
 			if h.Kind != "sched" {
